@@ -144,7 +144,8 @@ TYPED_ANNOTATIONS = [('int', '3'), ('int', '-1'), ('float', '2.5'), ('str', "'s'
                      ('list[int]', '[1]'), ('dict[str, int]', "{'a': 1}"), ('tuple[int, ...]', '(1, 2)'), ('str', "'\\xe9'"), ('float', '-0.5'),
                      ('int', '10 ** 2'), ('int | None', 'None'), ("'list[int]'", '[2]'), ("'int'", '4'), ('int | None', '5')]
 DOCS = [None, None, 'A docstring.', 'Multi\n    line\n    doc.', 'Non-ASCII: \\xe9 \\u20ac.', 'x', '  leading space', 'Args:\n        a: thing\n']
-NAMES = ['a', 'b', 'c', 'dd', 'ee', 'flag', 'value', 'opt', 'n', 'k_w']
+NAMES = ['a', 'b', 'c', 'dd', 'ee', 'flag', 'value', 'opt', 'n', 'k_w', 'p1', 'p2', 'p3', 'q1', 'q2', 'q3', 'r1', 'r2']
+WIDE = False    # set by the caller: unusually many parameters of one kind (module-wide maxima size the code-object bit fields)
 
 
 def gen_def(rng, eg, name, indent='', first=None, depth=2):
@@ -154,6 +155,11 @@ def gen_def(rng, eg, name, indent='', first=None, depth=2):
     npo = rng.choice([0, 0, 0, 1, 2])
     npl = rng.choice([0, 1, 2, 2, 3])
     nkw = rng.choice([0, 0, 1, 2])
+    if WIDE:
+        w = rng.choice(['po', 'pl', 'kw'])
+        npo = rng.choice([2, 3, 4, 5, 7]) if w == 'po' else rng.choice([0, 1])
+        npl = rng.choice([4, 5, 8]) if w == 'pl' else rng.choice([0, 1])
+        nkw = rng.choice([3, 4, 5, 8]) if w == 'kw' else rng.choice([0, 1])
     star = rng.random() < .3 or (nkw and rng.random() < .5)
     bare = nkw and not star
     dstar = rng.random() < .3
